@@ -169,3 +169,62 @@ def open_fd_count(prefix):
         except OSError:
             pass
     return n
+
+
+def run_history_impl(t, canon, cp, ops, fd_prefix):
+    """Run a history of operations on ONE TorrentFileStream.  Returns list of (outcome, open_fds)."""
+    tfs = _stream.TorrentFileStream(t, content_path=cp)
+    outs = []
+    keep = []   # abandoned generators stay referenced (suspended, never resumed)
+    try:
+        for op in ops:
+            if op[0] == 'iter':
+                k = op[1]
+                items = []
+                try:
+                    if k != 0:
+                        gen = tfs.iter_pieces()
+                        keep.append(gen)
+                        for n, it in enumerate(gen):
+                            items.append(canon.item(it))
+                            if k > 0 and n + 1 >= k:
+                                break
+                    out = ('ok', items)
+                except Exception as e:  # noqa
+                    out = ('err', canon_exc(e))
+            elif op[0] == 'get':
+                out = impl_call(tfs.get_piece, op[1])
+            elif op[0] == 'verify':
+                out = impl_call(tfs.verify_piece, op[1])
+            elif op[0] == 'close':
+                tfs.close()
+                out = ('closed',)
+            else:
+                raise AssertionError(op)
+            outs.append((out, open_fd_count(fd_prefix)))
+    finally:
+        for g in keep:
+            g.close()
+        tfs.close()
+    return outs
+
+
+def model_history(r):
+    """parsed model response of stream.history -> same shape as run_history_impl"""
+    outs = []
+    for o, n in r:
+        if o == 'closed':
+            outs.append((('closed',), int(n)))
+        elif o[0] == 'err':
+            outs.append((('err', model_exn(o[1])), int(n)))
+        else:
+            v = o[1]
+            if isinstance(v, list):
+                outs.append((('ok', [model_item(x) for x in v]), int(n)))
+            elif v == 'none':
+                outs.append((('ok', None), int(n)))
+            elif v in ('t', 'f'):
+                outs.append((('ok', v == 't'), int(n)))
+            else:
+                outs.append((('ok', atom_bytes(v)), int(n)))
+    return outs
